@@ -86,6 +86,12 @@ class Interp(ExprMixin, StmtMixin, CallMixin):
 
     # ------------------------------------------------------------------ symbolic maps
     def map_key(self, cell: MapCell, key):
+        if isinstance(key, Ref):
+            kc = self.path.cell(key)
+            if isinstance(kc, ObjCell) and "g_value" in kc.attrs:
+                # a decoded data item used as dictionary key stands for the value it holds (its __hash__/__eq__ delegate to
+                # the value: assumption A-KEY of the contracts that use spec.ext.AbsItem)
+                key = kc.attrs["g_value"]
         if cell.ksort == "int":
             if kind_of(key) not in ("int", "bool"):
                 raise Unsupported("non-integer key for integer-keyed symbolic map")
